@@ -257,10 +257,11 @@ static void load_data(void)
   const char* dr = get("datarep", NULL);    // <hexunit>*<count>
   if (dr)
   {
-    char tmp[256]; snprintf(tmp, sizeof tmp, "%s", dr);
+    char* tmp = strdup(dr);
     char* star = strchr(tmp, '*'); long cnt = 1;
     if (star) { *star = 0; cnt = strtol(star + 1, 0, 10); }
     size_t ul; uint8_t* u = unhex(tmp, &ul);
+    free(tmp);
     g_data = (uint8_t*) malloc(ul * cnt + 1); g_data_len = ul * cnt;
     for (long i = 0; i < cnt; i++) memcpy(g_data + i * ul, u, ul);
     free(u);
@@ -531,10 +532,14 @@ int main(int argc, char** argv)
       sitemap_used = 0;
     }
     yr_verif_arena_always_move = (int) geti("mv", 0);
+    // mmd=<n>: YR_CONFIG_MAX_MATCH_DATA for this case (size of the matches notebook's pages and of every match's data copy)
+    uint32_t mmd_keep = 0; yr_get_configuration_uint32(YR_CONFIG_MAX_MATCH_DATA, &mmd_keep);
+    if (!is_init && geti("mmd", -1) >= 0) yr_set_configuration_uint32(YR_CONFIG_MAX_MATCH_DATA, (uint32_t) geti("mmd", 512));
     unsigned long live0 = ledger_live, bytes0 = ledger_bytes, seq0 = alloc_seq;
     char rc[160] = "-", res[1400] = "-";
     run_case(kind, rc, res, sizeof rc);
     yr_verif_arena_always_move = 0;
+    if (!is_init && geti("mmd", -1) >= 0) yr_set_configuration_uint32(YR_CONFIG_MAX_MATCH_DATA, mmd_keep);
     long N = g_count, inj = g_injected;
     if (g_sitemap_on)
     {
